@@ -1468,6 +1468,9 @@ def scenario_from_module(mod, rep):
         on = getattr(cfg, "omit_none", None) if cfg else None
         if isinstance(on, bool):
             cobj.extra["omit_none"] = str(on)
+        for oname in ("sort_keys", "forbid_extra_keys", "allow_deserialization_not_by_alias"):
+            if cfg is not None and isinstance(cfg.__dict__.get(oname), bool):
+                cobj.extra[oname] = str(cfg.__dict__[oname])
         sc.classes.append(cobj)
     sc.roots = [ty_of(t) for t in mod.ROOTS]
     return sc
